@@ -145,6 +145,33 @@ theorem set32_spec (m : Memory) (hinv : Inv m.sections) (a v : Nat) (h : within3
   obtain ⟨e, he, h1, h2⟩ := h
   exact set32_within hinv he v h1 h2
 
+/-- outside the property, mirrored: a 32-bit access that starts in a section but runs past its end is refused
+    (`get32` answers `None`, `set32` answers `Err`) even when the following bytes are mapped by the next section;
+    `set32` at an unmapped address panics ("Address … has no section"). -/
+theorem get32_across (m : Memory) (hinv : Inv m.sections) (a : Nat) {e : Entry} (he : e ∈ m.sections)
+    (h1 : e.1 ≤ a) (h2 : a < e.1 + e.2.data.length) (h3 : e.1 + e.2.data.length < a + 4) : m.get32 a = .ok none := by
+  unfold get32
+  rw [sectionAddress_covered hinv he h1 h2]
+  have : a - e.1 + 4 > e.2.data.length := by omega
+  simp [find_of_mem hinv.pairwise he, this]
+
+theorem set32_across (m : Memory) (hinv : Inv m.sections) (a v : Nat) {e : Entry} (he : e ∈ m.sections)
+    (h1 : e.1 ≤ a) (h2 : a < e.1 + e.2.data.length) (h3 : e.1 + e.2.data.length < a + 4) :
+    m.set32 a v = .err .other := by
+  unfold set32
+  rw [sectionAddress_covered hinv he h1 h2]
+  have : a - e.1 + 4 > e.2.data.length := by omega
+  simp [find_of_mem hinv.pairwise he, this]
+
+theorem set32_unmapped_panics (m : Memory) (hinv : Inv m.sections) (a v : Nat) (h : abs m.sections a = none) :
+    m.set32 a v = .panic := by
+  rcases abs_cases hinv.pairwise a with ⟨e, he, h1, h2, habs⟩ | ⟨hnone, _⟩
+  · rw [habs] at h
+    have : a - e.1 < e.2.data.length := by omega
+    simp [List.getElem?_eq_getElem this] at h
+  · unfold set32
+    rw [sectionAddress_unmapped hinv hnone]
+
 /-- a 32-bit store is read back by `get32`: the value modulo 2^32 -/
 theorem assemble_bytes32 (e : Endian) (v : Nat) : assemble e (bytes32 e v) = v % 2 ^ 32 := by
   have key : ∀ w : BitVec 32,
